@@ -522,6 +522,8 @@ class Run:
                 continue
             if ship is None and not self.ghost and g != un:
                 self.violate(n, 'no loaded ship but hardener %d exposes %r, unsimulated %r' % (i, g, un))
+            if recs and not had and g != un:
+                self.violate(n, 'the simulation failed (%s) but hardener %d exposes %r, unsimulated %r' % (recs[0], i, g, un))
             if not inq:
                 continue
             if not C.close(sum(g), sum(un)):
@@ -672,7 +674,7 @@ class Gen:
             if k == 'defp':
                 return {'op': 'defp', 'p': self.profile()}
             if k == 'imp':
-                kind = r.choice(['ship:%s' % r.choice(T), 'ship:all', 'rahres', 'rahres:%s' % r.choice(T), 'shift', 'cyc'])
+                kind = r.choice(['ship:%s' % t for t in T] + ['ship:all', 'rahres', 'rahres:%s' % r.choice(T), 'shift', 'cyc'])
                 if kind in cfg['imps'] and r.random() < 0.6:
                     return {'op': 'imp', 'k': kind, 'v': None}
                 return {'op': 'imp', 'k': kind, 'v': r.choice(MULT[kind.split(':')[0]])}
@@ -735,6 +737,9 @@ def malformed_histories():
     one([dict(ok, shift=-6)])
     one([dict(ok, v=[0.5, 0.5, 0.5, 0.5])], prof=[1, 0, 0, 0])         # sum <= 3: recipient passes zero
     one([dict(ok, v=[0.75, 0.75, 0.75, 0.75])])                        # sum == 3
+    one([dict(ok, v=[0.75, 0.75, 0.75, 0.75], shift=6.25)])            # two recipients reach exactly 0 in tick 13: log10(0)
+    one([dict(ok, v=[0.625, 1.0, 0.875, 0.5], shift=12.5)], prof=[0, 0, 0, 3])   # the recipient reaches exactly 0
+    one([ok, dict(ok, v=[0.75, 0.75, 0.75, 0.75], shift=6.25, cyc=5000)])        # failure after both were shifted
     one([dict(ok, v=[0.7, 0.7, 0.7, 0.7], shift=10)], prof=[0, 0, 1, 0])
     one([dict(ok, v=[0.6, 0.9, 0.8, 0.65], shift=15)], prof=[3, 1, 0, 0], pen=True)
     one([dict(ok, v=[1.2, 0.9, 0.8, 0.9])])                            # resonance above 1
